@@ -1,7 +1,7 @@
 (* Decidable comparisons used by the generated case shards (coq/Run): each case carries the inputs AND the
    observables the real code produced; [check_*] runs the model on the inputs and compares.  Trusted to
    state the comparison correctly (DESIGN.md, trusted base). *)
-From Connectome Require Import Values Attrs VM Edges Store NameSet MiscGen ColStore ColumnsGen Columns.
+From Connectome Require Import Values Attrs VM Edges Store NameSet MemGen ShardGen ColStore ColumnsGen Columns.
 From Connectome Require Import GraphHashModel.
 
 Definition which_eqb (a b : which) : bool := match a, b with WH, WH | WC, WC => true | _, _ => false end.
@@ -169,7 +169,7 @@ Fixpoint check_mops (c : cache_state) (i : nat) (ops : list (mcop * (option nat 
                       | OGet k => c_get c (mkey k)
                       | OSet k v => (None, c_set c (mkey k) (SVal (VNat v)))
                       | OClear => (None, c_clear c)
-                      | OPickle => (None, if list_eqb String.eqb MiscGen.mc_reduce_keeps ["size"%string] then new_cache (ck c) else c) end in
+                      | OPickle => (None, if list_eqb String.eqb MemGen.mc_reduce_keeps ["size"%string] then new_cache (ck c) else c) end in
       let ok_hit := match o, r, hit with
                     | OGet _, Some (SVal (VNat v)), Some w => Nat.eqb v w
                     | OGet _, None, None => true
@@ -184,9 +184,9 @@ Definition check_memcache (c : option nat * list (mcop * (option nat * nat))) : 
 Record shcase := { sh_keys : list string; sh_size : nat; sh_pos : nat;
                    sh_exp_keys : list string; sh_exp_count : nat; sh_exp_idx : nat }.
 Definition check_shard (c : shcase) : nat :=
-  if list_eqb String.eqb (MiscGen.shard_keys (sh_keys c) (sh_size c) (MiscGen.shard_idx (sh_pos c) (sh_size c))) (sh_exp_keys c)
-     && Nat.eqb (MiscGen.shard_count (List.length (sh_keys c)) (sh_size c)) (sh_exp_count c)
-     && Nat.eqb (MiscGen.shard_idx (sh_pos c) (sh_size c)) (sh_exp_idx c)
+  if list_eqb String.eqb (ShardGen.shard_keys (sh_keys c) (sh_size c) (ShardGen.shard_idx (sh_pos c) (sh_size c))) (sh_exp_keys c)
+     && Nat.eqb (ShardGen.shard_count (List.length (sh_keys c)) (sh_size c)) (sh_exp_count c)
+     && Nat.eqb (ShardGen.shard_idx (sh_pos c) (sh_size c)) (sh_exp_idx c)
   then 0 else 1.
 
 (* ---------- column caches (C03, C04, C07, C08): Model/Columns.v against CacheColumns on request sequences ----------
@@ -216,7 +216,10 @@ Definition res_code (names : list string) (col : nat) (key : val) (r : cres) : n
   | CErr _ => 3
   end.
 
-Fixpoint check_colreqs (names : list string) (st : colstore) (i : nat) (rs : list colreq) : nat :=
+(* what is compared depends on the property the sequence is run for: 0 everything (C03: the calls in order), 1 the outcome and
+   the number of disk entries (C04, C07), 2 the outcome and whether the request was a hit, i.e. ran the hash pass of its entry only (C08) *)
+Definition is_hit (l : list string) : bool := match l with [_] => true | _ => false end.
+Fixpoint check_colreqs (mode : nat) (names : list string) (st : colstore) (i : nat) (rs : list colreq) : nat :=
   match rs with
   | [] => 0
   | q :: t =>
@@ -226,9 +229,13 @@ Fixpoint check_colreqs (names : list string) (st : colstore) (i : nat) (rs : lis
       let gv := fun c k => if existsb (fun p => Nat.eqb (fst p) c && String.eqb (snd p) (key_str k)) (cq_fail_v q) then None
                            else Some (col_v names c k) in
       let '(r, st', ev) := column_request hpyeq heqb pyeq (fun l => l) gh gv (cq_col q) (cq_size q) key (map VStr (cq_keys q)) st in
+      let toks := flat_map (col_token names) ev in
       if Nat.eqb (res_code names (cq_col q) key r) (cq_exp q)
-         && list_eqb String.eqb (flat_map (col_token names) ev) (cq_log q)
-         && Nat.eqb (List.length (disk st')) (cq_disk q)
-      then check_colreqs names st' (S i) t else S i
+         && match mode with
+            | 0 => list_eqb String.eqb toks (cq_log q) && Nat.eqb (List.length (disk st')) (cq_disk q)
+            | 1 => Nat.eqb (List.length (disk st')) (cq_disk q)
+            | _ => Bool.eqb (is_hit toks) (is_hit (cq_log q))
+            end
+      then check_colreqs mode names st' (S i) t else S i
   end.
-Definition check_columns (c : list string * list colreq) : nat := check_colreqs (fst c) colstore0 0 (snd c).
+Definition check_columns (c : nat * list string * list colreq) : nat := check_colreqs (fst (fst c)) (snd (fst c)) colstore0 0 (snd c).
